@@ -8,8 +8,8 @@ set_option linter.unusedSimpArgs false
 namespace Ucan.Selector
 
 /-- one iteration of the Go loop is one step of the specification -/
-theorem resolve_cons (seg : Seg) (rest : List Seg) (cur : Option Node) :
-    resolve (seg :: rest) cur = stepSpec (classify seg) seg.optional cur >>= resolve rest := by
+theorem resolve_cons (l : Bool) (seg : Seg) (rest : List Seg) (cur : Option Node) :
+    resolve l (seg :: rest) cur = stepSpec l (classify seg) seg.optional cur >>= resolve l rest := by
   conv => lhs; unfold resolve
   unfold classify
   by_cases h1 : seg.identity
@@ -30,7 +30,9 @@ theorem resolve_cons (seg : Seg) (rest : List Seg) (cur : Option Node) :
           simp only [stepSpec]
           cases hopt : seg.optional <;> rcases cur with _ | (_ | _ | _ | _ | s | bs | xs | _ | _) <;>
             simp [bind, Except.bind, failOpt]
-          all_goals (rw [extract_sliceIndices_eq_pySlice]; rfl)
+          all_goals first
+            | (rw [extract_sliceIndices_eq_pySlice]; rfl)
+            | (cases l <;> simp [bind, Except.bind])
         | none =>
           simp only [stepSpec]
           cases hopt : seg.optional <;> rcases cur with _ | (_ | _ | _ | _ | _ | bs | xs | _ | _) <;>
@@ -41,8 +43,8 @@ theorem resolve_cons (seg : Seg) (rest : List Seg) (cur : Option Node) :
 
 /-- resolving a selector equals resolving its segments one after the other (the fold of the
     per-kind steps of the specification): no early exit, no segment ignored -/
-theorem C12_resolve_eq_spec (segs : List Seg) (cur : Option Node) :
-    resolve segs cur = resolveSpec segs cur := by
+theorem C12_resolve_eq_spec (l : Bool) (segs : List Seg) (cur : Option Node) :
+    resolve l segs cur = resolveSpec l segs cur := by
   unfold resolveSpec
   induction segs generalizing cur with
   | nil => simp [resolve, pure, Except.pure]
@@ -53,13 +55,13 @@ theorem C12_resolve_eq_spec (segs : List Seg) (cur : Option Node) :
     exact ih c
 
 /-- `resolve (a ++ b)` is `resolve a` followed by `resolve b` on its result -/
-theorem C12_compositional (a b : List Seg) (cur : Option Node) :
-    resolve (a ++ b) cur = resolve a cur >>= resolve b := by
+theorem C12_compositional (l : Bool) (a b : List Seg) (cur : Option Node) :
+    resolve l (a ++ b) cur = resolve l a cur >>= resolve l b := by
   induction a generalizing cur with
   | nil => simp [resolve, bind, Except.bind]
   | cons seg rest ih =>
     rw [List.cons_append, resolve_cons, resolve_cons]
-    cases stepSpec (classify seg) seg.optional cur with
+    cases stepSpec l (classify seg) seg.optional cur with
     | error e => rfl
     | ok v => exact ih v
 
@@ -80,9 +82,9 @@ theorem C12_index_eq_python {α} (xs : List α) (i : Int) : goIndex xs i = pyInd
   goIndex_eq_pyIndex xs i
 
 /-- a failing optional field/index segment yields "no value", never an error -/
-theorem C12_optional_never_errors (k : SegKind) (cur : Option Node)
+theorem C12_optional_never_errors (l : Bool) (k : SegKind) (cur : Option Node)
     (hk : (∃ f, k = .field f) ∨ (∃ i, k = .index i)) :
-    ∃ r, stepSpec k true cur = .ok r := by
+    ∃ r, stepSpec l k true cur = .ok r := by
   rcases hk with ⟨f, rfl⟩ | ⟨i, rfl⟩
   · unfold stepSpec
     rcases cur with _ | (_ | _ | _ | _ | _ | _ | _ | kvs | _) <;> simp [failOpt]
@@ -93,13 +95,13 @@ theorem C12_optional_never_errors (k : SegKind) (cur : Option Node)
     · cases pyIndex xs i <;> simp
 
 /-- a failing non-optional field segment is an error -/
-theorem C12_required_field_missing (f : Bytes) (kvs : List (Bytes × Node))
-    (h : Node.lookup f kvs = none) : stepSpec (.field f) false (some (.map kvs)) = .error .resolution := by
+theorem C12_required_field_missing (l : Bool) (f : Bytes) (kvs : List (Bytes × Node))
+    (h : Node.lookup f kvs = none) : stepSpec l (.field f) false (some (.map kvs)) = .error .resolution := by
   simp [stepSpec, h, failOpt]
 
 /-- a failing non-optional index segment is an error -/
-theorem C12_required_index_out_of_range (i : Int) (xs : List Node)
-    (h : pyIndex xs i = none) : stepSpec (.index i) false (some (.list xs)) = .error .resolution := by
+theorem C12_required_index_out_of_range (l : Bool) (i : Int) (xs : List Node)
+    (h : pyIndex xs i = none) : stepSpec l (.index i) false (some (.list xs)) = .error .resolution := by
   simp [stepSpec, h, failOpt]
 
 /-- the segment kinds the parser builds are recognised as such by the `switch` of `resolve`,
@@ -121,10 +123,24 @@ theorem C12_classify_slice (str : Bytes) (s0 s1 : Int) (opt : Bool) :
   simp [classify, openLo, openHi]
 
 -- non-vacuity: `.["a"][]` on {a: {x: 1, y: 2}} walks through the iterator (nothing after it is ignored)
-example :
-    resolve [{ str := [], isField := true, field := [97] }, { str := [], iterator := true },
+example (l : Bool) :
+    resolve l [{ str := [], isField := true, field := [97] }, { str := [], iterator := true },
              { str := [], index := -1 }]
       (some (.map [([97], .map [([120], .int 1), ([121], .int 2)])])) = .ok (some (.int 2)) := by
   simp [resolve, Node.lookup, Node.values, goIndex]
+
+/-- the one point C12 leaves open, stated: an optional slice applied to a value that cannot be sliced is an error under one
+reading and "no value" under the other; on every other (segment, value) pair the two readings agree -/
+theorem C12_latitude_is_optional_slice_only (k : SegKind) (opt : Bool) (cur : Option Node)
+    (h : stepSpec false k opt cur ≠ stepSpec true k opt cur) :
+    (∃ lo hi, k = .slice lo hi) ∧ opt = true ∧ stepSpec false k opt cur = .error .resolution ∧ stepSpec true k opt cur = .ok none := by
+  cases k with
+  | slice lo hi =>
+    rcases cur with _ | (_ | _ | _ | _ | _ | _ | _ | _ | _) <;> cases opt <;> simp_all [stepSpec]
+  | _ => simp [stepSpec] at h
+
+example : resolve false [{ str := [], optional := true, slice := some (0, 2) }] (some (.int 5)) = .error .resolution ∧
+    resolve true [{ str := [], optional := true, slice := some (0, 2) }] (some (.int 5)) = .ok none := by
+  simp [resolve]
 
 end Ucan.Selector
